@@ -33,6 +33,7 @@ from . import boot                                    # noqa: F401
 from .runner import CaseResult, Part, exc_sig, REPO_SRC
 from .hollow import HollowSession
 from . import c14_hollow as ch
+from . import c14_launch
 
 import traceback
 
@@ -237,7 +238,8 @@ def parts(tier):
             Part('bootstrap_enum', enum=bootstrap_enum),
             Part('cause_orders_enum', enum=cause_enum),
             Part('notify_histories', notify_cases(), quick=1000, thorough=8000),
-            Part('cause_histories',  cause_cases(),  quick=500,  thorough=6000)]
+            Part('cause_histories',  cause_cases(),  quick=500,  thorough=6000),
+            Part('launch_cancel',    c14_launch.cases(), quick=400, thorough=4000)]
 
 
 # ------------------------------------------------------------------------------
@@ -288,6 +290,8 @@ def run_case(case):
             return run_bootstrap(case)
         if kind == 'causes':
             return run_causes(case)
+        if kind == 'launch_cancel':
+            return c14_launch.run(case)
         return run_notify(case)
     finally:
         # BaseComponent.__init__ registers every component in a module level
